@@ -34,6 +34,8 @@ def consts_by_arm(b, adt, call_rx, arg_from=1):
 
 def run(ctx):
     P = 'C11'
+    from rules import c16 as _c16
+    _c16.same_form(ctx, P)        # cleartext signatures: every signer is handed the RFC signed form (dash-unescaped, trimmed, CR LF)
     b = ctx.body('packet::signature::types::serialize_for_hashing')
     if b is not None:
         # RFC 9580 5.2.4: "When a v4 signature is made over a key ... 0x99 ... When a v6 signature is made over a key ... 0x9B": the
